@@ -247,6 +247,8 @@ var goKeywords = map[string]bool{"break": true, "default": true, "func": true, "
 
 var universe = map[string]bool{"nil": true, "true": true, "false": true, "iota": true, "string": true, "error": true, "len": true, "new": true, "make": true, "int": true, "bool": true, "any": true, "append": true, "cap": true, "panic": true, "print": true, "complex": true, "real": true, "imag": true, "copy": true, "delete": true, "close": true, "byte": true, "rune": true, "float64": true, "int64": true, "uint32": true, "uint64": true, "uintptr": true, "complex128": true}
 
+var universeTypeNames = map[string]bool{"string": true, "error": true, "int": true, "bool": true, "any": true, "byte": true, "rune": true, "float64": true, "int64": true, "uint32": true, "uint64": true, "uintptr": true, "complex128": true}
+
 // Rename applies an adversarial, consistent renaming to a clone of p.
 func Rename(p *Program, r *rand.Rand) *Program {
 	q := p.Clone()
@@ -316,6 +318,12 @@ func Rename(p *Program, r *rand.Rand) *Program {
 		for _, n := range q.PkgScopeNames(0) {
 			seen[n] = true
 		}
+		hasValueExprs := false
+		for _, it := range q.Items {
+			if it.Kind == KValue || it.Kind == KIfaceValue {
+				hasValueExprs = true
+			}
+		}
 		style := r.Intn(4) // 0: all missing, else named
 		for i := range in.Params {
 			if style == 0 {
@@ -335,6 +343,11 @@ func Rename(p *Program, r *rand.Rand) *Program {
 				}
 				if goKeywords[n] || n == "new" || n == "panic" {
 					// the template body itself calls new(...) / panic(...)
+					continue
+				}
+				if hasValueExprs && universeTypeNames[n] {
+					// value expressions written inside the template body spell basic types
+					// (map[int]T{...}): a parameter of that name would make the TEMPLATE ill-typed
 					continue
 				}
 				if n != "_" && seen[n] {
